@@ -7,8 +7,14 @@ package exec
 
 import (
 	"bytes"
+	"container/heap"
+	"context"
 	"encoding/gob"
+	"sync"
+	"time"
 
+	"github.com/grailbio/bigmachine"
+	"github.com/grailbio/bigmachine/testsystem"
 	"github.com/grailbio/bigslice"
 )
 
@@ -45,3 +51,69 @@ func VerifInvocationRef(v interface{}) (uint64, bool) {
 }
 
 func VerifResultWithIndex(i uint64) *Result { return &Result{invIndex: i} }
+
+// ---- C14: cluster manager
+
+type VerifSliceMachine = sliceMachine
+
+// VerifSchedule runs schedule() on queues built by heap.Push in the given order.
+// reqs: (priority, procs); machs: (maxTaskProcs, taskProcs).
+func VerifSchedule(reqs [][2]int, machs [][2]int) (ok bool, prio, procs, max, used int) {
+	var sq scheduleRequestQ
+	var mq machineQ
+	for _, r := range reqs {
+		heap.Push(&sq, &scheduleRequest{priority: r[0], procs: r[1]})
+	}
+	for _, m := range machs {
+		heap.Push(&mq, &sliceMachine{maxTaskProcs: m[0], taskProcs: m[1]})
+	}
+	r, m := schedule(&sq, &mq)
+	if len(sq) != len(reqs) || len(mq) != len(machs) {
+		panic("schedule lost queue entries")
+	}
+	if r == nil || m == nil {
+		return false, 0, 0, 0, 0
+	}
+	return true, r.priority, r.procs, m.maxTaskProcs, m.taskProcs
+}
+
+type VerifManager struct {
+	Sys    *testsystem.System
+	B      *bigmachine.B
+	M      *machineManager
+	cancel func()
+}
+
+func VerifNewManager(machinep, maxp int, maxLoad float64) *VerifManager {
+	system := testsystem.New()
+	system.Machineprocs = machinep
+	system.KeepalivePeriod = time.Second
+	system.KeepaliveTimeout = 5 * time.Second
+	system.KeepaliveRpcTimeout = time.Second
+	b := bigmachine.Start(system)
+	ctx, ctxcancel := context.WithCancel(context.Background())
+	m := newMachineManager(b, nil, nil, maxp, maxLoad, &worker{MachineCombiners: false})
+	var wg sync.WaitGroup
+	wg.Add(1)
+	go func() {
+		m.Do(ctx)
+		wg.Done()
+	}()
+	return &VerifManager{Sys: system, B: b, M: m, cancel: func() {
+		ctxcancel()
+		b.Shutdown()
+		wg.Wait()
+	}}
+}
+
+func (v *VerifManager) Close()         { v.cancel() }
+func (v *VerifManager) Machprocs() int { return v.M.machprocs }
+func (v *VerifManager) Offer(prio, procs int) (<-chan *VerifSliceMachine, func()) {
+	return v.M.Offer(prio, procs)
+}
+
+// VerifMachInfo reads manager-owned fields; call only at quiescence.
+func VerifMachInfo(m *VerifSliceMachine) (addr string, max, used, health int) {
+	return m.Addr, m.maxTaskProcs, m.taskProcs, int(m.health)
+}
+
